@@ -9,8 +9,8 @@ use crate::{ensure, fail};
 use mp4::{BoxHeader, BoxType, FixedPointI8, FixedPointU16, FixedPointU8, FourCC, Mp4Box, ReadBox, WriteBox};
 use std::io::Cursor;
 
-pub trait LibBox: Mp4Box + PartialEq + std::fmt::Debug + Clone + for<'a> WriteBox<&'a mut Vec<u8>> + for<'a> ReadBox<&'a mut Cursor<Vec<u8>>> {}
-impl<T> LibBox for T where T: Mp4Box + PartialEq + std::fmt::Debug + Clone + for<'a> WriteBox<&'a mut Vec<u8>> + for<'a> ReadBox<&'a mut Cursor<Vec<u8>>> {}
+pub trait LibBox: Mp4Box + PartialEq + std::fmt::Debug + Clone + for<'a> WriteBox<&'a mut Vec<u8>> + for<'a, 'b> WriteBox<&'a mut ChunkSink<'b>> + for<'a> ReadBox<&'a mut Cursor<Vec<u8>>> {}
+impl<T> LibBox for T where T: Mp4Box + PartialEq + std::fmt::Debug + Clone + for<'a> WriteBox<&'a mut Vec<u8>> + for<'a, 'b> WriteBox<&'a mut ChunkSink<'b>> + for<'a> ReadBox<&'a mut Cursor<Vec<u8>>> {}
 
 pub trait Visitor {
     type Out;
@@ -550,9 +550,38 @@ pub fn with_lib<V: Visitor>(spec: &Spec, vis: &mut V) -> Option<V::Out> {
 // generic encode / decode
 // ------------------------------------------------------------------------------------------
 
+thread_local! {
+    /// 0: `encode` writes into a Vec (every write call taken whole); n > 0: into a legal sink that
+    /// accepts at most n bytes per write call
+    pub static ENC_SINK_LIMIT: std::cell::Cell<usize> = const { std::cell::Cell::new(0) };
+}
+
+pub struct ChunkSink<'a> {
+    buf: &'a mut Vec<u8>,
+    max: usize,
+}
+
+impl<'a> std::io::Write for ChunkSink<'a> {
+    fn write(&mut self, b: &[u8]) -> std::io::Result<usize> {
+        let n = b.len().min(self.max);
+        self.buf.extend_from_slice(&b[..n]);
+        Ok(n)
+    }
+    fn flush(&mut self) -> std::io::Result<()> {
+        Ok(())
+    }
+}
+
 pub fn encode<T: LibBox>(v: &T, kind: &str) -> Result<Result<(Vec<u8>, u64), String>, Failure> {
     let mut buf: Vec<u8> = Vec::new();
-    let r = guard(|| v.write_box(&mut buf)).map_err(|p| p.failure(&format!("write_box({})", kind)))?;
+    let lim = ENC_SINK_LIMIT.with(|c| c.get());
+    let r = if lim == 0 {
+        guard(|| v.write_box(&mut buf))
+    } else {
+        let mut sink = ChunkSink { buf: &mut buf, max: lim };
+        guard(|| v.write_box(&mut sink))
+    }
+    .map_err(|p| p.failure(&format!("write_box({})", kind)))?;
     Ok(match r {
         Ok(n) => Ok((buf, n)),
         Err(e) => Err(e.to_string()),
